@@ -140,7 +140,7 @@ func (c c10Case) String() string {
 
 func c10Gen(rt *rapid.T) c10Case {
 	var c c10Case
-	c.op = rapid.SampledFrom(c10Ops).Draw(rt, "op")
+	c.op = drawOp(rt, c10Ops)
 	gate := runOpConstraints(c.op)
 	c.dt = rapid.SampledFrom(gate[0]).Draw(rt, "dtype")
 	if !isFloat(c.dt) && c.op != "Not" && rapid.IntRange(0, 2).Draw(rt, "preferFloat") > 0 {
